@@ -18,6 +18,9 @@ BUILTIN_RAISES = {
     "float": {"ValueError"},  # float("x")
     "json.loads": {"JSONDecodeError", "RecursionError"},  # malformed JSON; deeply nested arrays/objects ("[" * 2000) exhaust the recursion limit of the C scanner
     "json.load": {"JSONDecodeError"},
+    # JSON-compatible input can still fail: nesting deeper than the interpreter's recursion limit (RecursionError), an int with more than
+    # sys.get_int_max_str_digits() = 4300 digits (ValueError).  TypeError / circular-reference ValueError need input that is not JSON-compatible.
+    "json.dumps": {"RecursionError", "ValueError"},
     "open": {"FileNotFoundError"},  # missing path (read modes)
 }
 
